@@ -4,6 +4,7 @@ import Capnp.Spec.Encoding
 import Capnp.Spec.Value
 import Capnp.Spec.Canon
 import Capnp.Model.CopyStruct
+import Capnp.Model.Alloc
 import Capnp.Model.EqualCap
 /-! ops of domain `read`: canonical traversal of a message through the model's accessors -/
 namespace Driver.Read
@@ -142,6 +143,12 @@ def runBuild : List String → String
   | ["bigstruct", _, _, _, _, d] =>   -- a struct pointer encodes at most 0xffff data words (Props.C05.isValid_spec)
     (match d.toNat? with | some n => if n ≤ 524280 then "ok" else "refused" | none => "bad-op")
   | "copy" :: _ => "ok"          -- C16: the copy equals the source and is independent of it
+  | ["alloc", _, sizes] =>       -- C05: a run of allocations in a fresh single-segment message (Model.Alloc; the root pointer's word comes first)
+    match (sizes.splitOn "+").mapM (·.toNat?) with
+    | some szs =>
+      let s := Capnp.Model.Alloc.allocFill { data := List.replicate 8 0, spare := [] } szs 1
+      toHex (s.data.map UInt8.ofNat)
+    | none => "bad-op"
   | ["copydata", src, dw, n, idx, old] =>   -- C16: `copyStruct`'s data path on the bytes of a list and of the object behind it (Model.CopyStruct)
     let hexNats (s : String) : Option (List Nat) := if s = "-" then some [] else (parseHex s).map (fun l => l.map UInt8.toNat)
     match hexNats src, dw.toNat?, n.toNat?, idx.toNat?, hexNats old with
